@@ -172,6 +172,91 @@ theorem spec_before (rows ins : Bool) (start n : Int) (hn : 0 ≤ n) (q : Rct) (
   all_goals
     split_ifs <;> first | rfl | (exfalso; omega) | (simp only [Option.some.injEq, Prod.mk.injEq]; omega)
 
+/-! ### the specification, cell by cell: rectangles move with their cells -/
+
+/-- the row (column) index of a position. -/
+def axisOf (rows : Bool) (k : Key) : Int := if rows then k.1 else k.2
+/-- the position with its row (column) index replaced. -/
+def moveKey (rows : Bool) (f : Int → Int) (k : Key) : Key := if rows then (f k.1, k.2) else (k.1, f k.2)
+
+/-- **insertion, cell by cell**: a rectangle is never dropped; an old cell lies in the rectangle iff its new
+    position (indices from `start` on move by `n`) lies in the new rectangle; and a *new* cell lies in the new
+    rectangle iff the insertion was strictly inside the old one (after its first, at or before its last
+    row / column) and the cell is within the rectangle's other axis. -/
+theorem spec_ins_cells (rows : Bool) (start n : Int) (hn : 0 ≤ n) (q : Rct) (hq : q.Nonempty) :
+    ∃ q', shiftRectSpec rows true start n q = some q' ∧
+      (∀ k : Key, q.has k = true ↔ q'.has (moveKey rows (fun i => if start ≤ i then i + n else i) k) = true) ∧
+      (∀ k : Key, start ≤ axisOf rows k → axisOf rows k < start + n →
+        (q'.has k = true ↔ ((if rows then q.r0 else q.c0) < start ∧ start ≤ (if rows then q.r1 else q.c1) ∧
+          (if rows then q.c0 ≤ k.2 ∧ k.2 ≤ q.c1 else q.r0 ≤ k.1 ∧ k.1 ≤ q.r1)))) := by
+  obtain ⟨a, b, c, d⟩ := q
+  obtain ⟨h1, h2⟩ := hq
+  simp only [Rct.r0, Rct.r1, Rct.c0, Rct.c1] at h1 h2
+  cases rows
+  · refine ⟨(a, (insSpan start n b d).1, c, (insSpan start n b d).2), ?_, ?_, ?_⟩
+    · simp only [shiftRectSpec, Rct.r0, Rct.r1, Rct.c0, Rct.c1, Bool.false_eq_true, if_false, if_true, insSpan]
+      rw [if_neg (by omega), if_neg (by omega)]
+    · intro k
+      rw [Rct.has_iff, Rct.has_iff]
+      simp only [Rct.r0, Rct.r1, Rct.c0, Rct.c1, moveKey, insSpan, Bool.false_eq_true, if_false]
+      omega
+    · intro k hk1 hk2
+      rw [Rct.has_iff]
+      simp only [Rct.r0, Rct.r1, Rct.c0, Rct.c1, axisOf, insSpan, Bool.false_eq_true, if_false] at hk1 hk2 ⊢
+      omega
+  · refine ⟨((insSpan start n a c).1, b, (insSpan start n a c).2, d), ?_, ?_, ?_⟩
+    · simp only [shiftRectSpec, Rct.r0, Rct.r1, Rct.c0, Rct.c1, if_true, insSpan]
+      rw [if_neg (by omega), if_neg (by omega)]
+    · intro k
+      rw [Rct.has_iff, Rct.has_iff]
+      simp only [Rct.r0, Rct.r1, Rct.c0, Rct.c1, moveKey, insSpan, if_true]
+      omega
+    · intro k hk1 hk2
+      rw [Rct.has_iff]
+      simp only [Rct.r0, Rct.r1, Rct.c0, Rct.c1, axisOf, insSpan, if_true] at hk1 hk2 ⊢
+      omega
+
+/-- **deletion, cell by cell**: if the rectangle remains, a surviving old cell (row / column index outside
+    `start .. start+n-1`) lies in it iff its new position (indices from `start + n` on move down by `n`) lies in
+    the new rectangle; if it ceases to be a merge, it lost a row / column and at most one of its cells survives. -/
+theorem spec_del_cells (rows : Bool) (start n : Int) (hn : 0 ≤ n) (q : Rct) (hq : q.Nonempty) :
+    match shiftRectSpec rows false start n q with
+    | some q' => ∀ k : Key, (axisOf rows k < start ∨ start + n ≤ axisOf rows k) →
+        (q.has k = true ↔ q'.has (moveKey rows (fun i => if start + n ≤ i then i - n else i) k) = true)
+    | none =>
+      (∃ i, (if rows then q.r0 else q.c0) ≤ i ∧ i ≤ (if rows then q.r1 else q.c1) ∧ start ≤ i ∧ i < start + n) ∧
+      (∀ k k' : Key, (axisOf rows k < start ∨ start + n ≤ axisOf rows k) →
+        (axisOf rows k' < start ∨ start + n ≤ axisOf rows k') → q.has k = true → q.has k' = true → k = k') := by
+  obtain ⟨a, b, c, d⟩ := q
+  obtain ⟨h1, h2⟩ := hq
+  simp only [Rct.r0, Rct.r1, Rct.c0, Rct.c1] at h1 h2
+  cases hs : shiftRectSpec rows false start n (a, b, c, d) with
+  | some q' =>
+    obtain ⟨e, hle⟩ := spec_some hs
+    subst e
+    intro k hk
+    rw [Rct.has_iff, Rct.has_iff]
+    cases rows <;>
+      simp only [Rct.r0, Rct.r1, Rct.c0, Rct.c1, moveKey, axisOf, delSpan, Bool.false_eq_true, if_false, if_true] at hk hle ⊢ <;>
+      omega
+  | none =>
+    cases rows <;>
+      simp only [shiftRectSpec, Rct.r0, Rct.r1, Rct.c0, Rct.c1, delSpan, Bool.false_eq_true, if_false, if_true] at hs ⊢
+    all_goals
+      split_ifs at hs
+      all_goals
+        refine ⟨?_, ?_⟩
+        · first
+          | exact ⟨start, by omega⟩
+          | exact ⟨(if rows then a else b), by omega⟩
+          | exact ⟨a, by omega⟩ | exact ⟨b, by omega⟩ | exact ⟨c, by omega⟩ | exact ⟨d, by omega⟩
+        · intro k k' hk hk' hq hq'
+          rw [Rct.has_iff] at hq hq'
+          obtain ⟨k1, k2⟩ := k
+          obtain ⟨k1', k2'⟩ := k'
+          simp only [Rct.r0, Rct.r1, Rct.c0, Rct.c1, axisOf, Bool.false_eq_true, if_false, if_true, Prod.mk.injEq] at *
+          omega
+
 /-! ### un-merging, merging again -/
 
 theorem cellAt_unmerge (d : List (List (CellM MCell))) (a b : Nat) :
@@ -258,6 +343,116 @@ theorem mergeList_consistent_int (qs : List Rct) (s : MState) (hs : Consistent s
   rw [hmap'] at this
   exact this
 
+/-! ### values -/
+
+/-- the position is a non-anchor cell of one of the rectangles. -/
+def Covered (qs : List Rct) (k : Key) : Prop := ∃ q ∈ qs, q.has k = true ∧ k ≠ q.origin
+
+/-- `merge_cells` of a list, with the values: every cell is still there; a non-anchor cell of one of the
+    new rectangles is empty, every other cell keeps its value. -/
+theorem mergeList_vals_int : ∀ (qs : List Rct) (s : MState), Consistent s →
+    (∀ q ∈ qs, q.InTable s.grid.numRows s.grid.numCols) →
+    (∀ q ∈ qs, ∀ p ∈ rectsOf s.mmap, Rct.Disjoint p q) →
+    qs.Pairwise Rct.Disjoint →
+    ∃ s', mergeList s qs = .ok s' ∧ Consistent s' ∧ rectsOf s'.mmap = rectsOf s.mmap ++ qs ∧
+      s'.grid.numRows = s.grid.numRows ∧ s'.grid.numCols = s.grid.numCols ∧
+      (∀ a b cell, cellAt s.grid.data a b = some cell → ∃ cell', cellAt s'.grid.data a b = some cell' ∧
+        (Covered qs ((a : Int), (b : Int)) → cell'.val.val = 0) ∧
+        (¬ Covered qs ((a : Int), (b : Int)) → cell'.val.val = cell.val.val)) := by
+  intro qs
+  induction qs with
+  | nil =>
+    intro s hs _ _ _
+    refine ⟨s, rfl, hs, by simp, rfl, rfl, ?_⟩
+    intro a b cell hc
+    exact ⟨cell, hc, (fun h => by obtain ⟨q, hq, _⟩ := h; cases hq), (fun _ => rfl)⟩
+  | cons q rest ih =>
+    intro s hs hin hdis hpw
+    rw [List.pairwise_cons] at hpw
+    obtain ⟨i1, i2, i3, i4, i5, i6⟩ := hin q List.mem_cons_self
+    obtain ⟨a0, b0, c0, d0⟩ := q
+    simp only [Rct.r0, Rct.r1, Rct.c0, Rct.c1] at i1 i2 i3 i4 i5 i6
+    obtain ⟨r0, rfl⟩ := Int.eq_ofNat_of_zero_le i1
+    obtain ⟨cc0, rfl⟩ := Int.eq_ofNat_of_zero_le i4
+    obtain ⟨r1, rfl⟩ := Int.eq_ofNat_of_zero_le (by omega : 0 ≤ c0)
+    obtain ⟨c1, rfl⟩ := Int.eq_ofNat_of_zero_le (by omega : 0 ≤ d0)
+    obtain ⟨s1, h1, h2, h3, h4, h5, h6⟩ := mergeOne_consistent s hs r0 cc0 r1 c1 _ rfl
+      (hin _ List.mem_cons_self) (hdis _ List.mem_cons_self)
+    obtain ⟨s2, g1, g2, g3, g4, g5, g6⟩ := ih s1 h2
+      (by intro q hq; rw [h4, h5]; exact hin q (List.mem_cons_of_mem _ hq))
+      (by
+        intro q hq p hp
+        rw [h3] at hp
+        rcases List.mem_append.mp hp with hp | hp
+        · exact hdis q (List.mem_cons_of_mem _ hq) p hp
+        · simp only [List.mem_singleton] at hp
+          subst hp
+          exact hpw.1 _ hq)
+      hpw.2
+    refine ⟨s2, ?_, g2, ?_, by rw [g4, h4], by rw [g5, h5], ?_⟩
+    · simp only [mergeList, h1, bind, Except.bind]; exact g1
+    · rw [g3, h3]; simp
+    · intro a b cell hc
+      obtain ⟨cell1, hc1, hv1⟩ := h6 a b cell hc
+      obtain ⟨cell2, hc2, hv2a, hv2b⟩ := g6 a b cell1 hc1
+      refine ⟨cell2, hc2, ?_, ?_⟩
+      · rintro ⟨p, hp, hp1, hp2⟩
+        by_cases hcov : Covered rest ((a : Int), (b : Int))
+        · exact hv2a hcov
+        · rw [hv2b hcov, hv1]
+          rcases List.mem_cons.mp hp with e | hmem
+          · subst e
+            rw [if_pos ⟨hp1, hp2⟩]
+          · exact absurd ⟨p, hmem, hp1, hp2⟩ hcov
+      · intro hn
+        have hnr : ¬ Covered rest ((a : Int), (b : Int)) := fun ⟨p, hp, x⟩ => hn ⟨p, List.mem_cons_of_mem _ hp, x⟩
+        rw [hv2b hnr, hv1]
+        rw [if_neg]
+        intro hh
+        exact hn ⟨_, List.mem_cons_self, hh.1, hh.2⟩
+
+/-- every payload of the plain grid after a structural edit is an old payload or the fill. -/
+theorem specStep_cells_pred (P : MCell → Prop) (sp : Grid.Spec MCell) (op : Grid.Op MCell)
+    (hold : ∀ row ∈ sp.cells, ∀ y ∈ row, P y)
+    (hfill : ∀ n st d, (op = .addRow n st d ∨ op = .addCol n st d) → P (Grid.fillVal emptyCell d))
+    (hw : ∀ r c v, op ≠ .write r c v) :
+    ∀ row ∈ (Grid.specStep emptyCell sp op).cells, ∀ y ∈ row, P y := by
+  cases op with
+  | write r c v => exact absurd rfl (hw r c v)
+  | addRow n st d =>
+    intro row hrow y hy
+    simp only [Grid.specStep, Grid.Spec.insertRows] at hrow
+    rcases Grid.mem_insertAt hrow with h | h
+    · exact hold row h y hy
+    · rw [List.mem_replicate] at h
+      rw [h.2, List.mem_replicate] at hy
+      rw [hy.2]; exact hfill n st d (Or.inl rfl)
+  | addCol n st d =>
+    intro row hrow y hy
+    simp only [Grid.specStep, Grid.Spec.insertCols, List.mem_map] at hrow
+    obtain ⟨r0, hr0, rfl⟩ := hrow
+    rcases Grid.mem_insertAt hy with h | h
+    · exact hold r0 hr0 y h
+    · rw [List.mem_replicate] at h
+      rw [h.2]; exact hfill n st d (Or.inr rfl)
+  | delRow n st =>
+    intro row hrow y hy
+    simp only [Grid.specStep, Grid.Spec.removeRows] at hrow
+    exact hold row (Grid.mem_removeAt hrow) y hy
+  | delCol n st =>
+    intro row hrow y hy
+    simp only [Grid.specStep, Grid.Spec.removeCols, List.mem_map] at hrow
+    obtain ⟨r0, hr0, rfl⟩ := hrow
+    exact hold r0 hr0 y (Grid.mem_removeAt hy)
+
+theorem payload_ph_val (m : Option MRef) (v : Nat) (h : (payloadOf m v).ph = true) : (payloadOf m v).val = 0 := by
+  cases m with
+  | none => simp [payloadOf, setMerge, rawCell] at h
+  | some r =>
+    cases r with
+    | anchor x y => simp [payloadOf, setMerge, rawCell] at h
+    | ref _ _ _ _ => rfl
+
 theorem remerge_eq (rows : Bool) (start count : Int) (qs : List Rct) :
     ∀ s, remerge rows start count s qs = mergeList s (qs.filterMap (shiftRect rows start count)) := by
   induction qs with
@@ -287,13 +482,22 @@ theorem moveMerges_consistent (s : MState) (hs : Consistent s) (g' : Grid.State 
     (rows ins : Bool) (start n : Int)
     (he : EditOK rows ins start n s.grid.numRows s.grid.numCols g'.numRows g'.numCols)
     (hsafe : (∀ q ∈ rectsOf s.mmap, (if rows then q.r1 else q.c1) < start) →
-      Consistent { grid := g', mmap := s.mmap }) :
+      Consistent { grid := g', mmap := s.mmap })
+    (hph : ∀ a b cell, cellAt g'.data a b = some cell → cell.val.ph = true → cell.val.val = 0) :
     ∃ s', moveMerges { grid := g', mmap := s.mmap } rows start (if ins then n else -n) = .ok s' ∧ Consistent s' ∧
       rectsOf s'.mmap = (rectsOf s.mmap).filterMap (shiftRectSpec rows ins start n) ∧
-      s'.grid.numRows = g'.numRows ∧ s'.grid.numCols = g'.numCols := by
+      s'.grid.numRows = g'.numRows ∧ s'.grid.numCols = g'.numCols ∧
+      (∀ a b cell, cellAt g'.data a b = some cell → ∃ cell', cellAt s'.grid.data a b = some cell' ∧
+        (Covered (rectsOf s'.mmap) ((a : Int), (b : Int)) → cell'.val.val = 0) ∧
+        (¬ Covered (rectsOf s'.mmap) ((a : Int), (b : Int)) → cell'.val.val = cell.val.val)) := by
   have hne : ∀ q ∈ rectsOf s.mmap, q.Nonempty := fun q hq => (hs.inTable q hq).nonempty
   by_cases hall : ∀ q ∈ rectsOf s.mmap, (if rows then q.r1 else q.c1) < start
-  · refine ⟨{ grid := g', mmap := s.mmap }, ?_, hsafe hall, ?_, rfl, rfl⟩
+  · refine ⟨{ grid := g', mmap := s.mmap }, ?_, hsafe hall, ?_, rfl, rfl, ?_⟩
+    rotate_left 2
+    · intro a b cell hc
+      refine ⟨cell, hc, ?_, fun _ => rfl⟩
+      rintro ⟨q, hq, hq1, hq2⟩
+      exact ((((consistent_picture _ (hsafe hall) a b cell hc).2.1 q hq hq1).2 hq2).2.1)
     · have : ((anchorsOf s.mmap).map rectOf).all
           (fun q => decide ((if rows = true then q.2.2.1 else q.2.2.2) < start)) = true := by
         rw [List.all_eq_true]
@@ -326,7 +530,7 @@ theorem moveMerges_consistent (s : MState) (hs : Consistent s) (g' : Grid.State 
       have hp : (rectsOf s.mmap).Pairwise (fun a b => a.Nonempty ∧ b.Nonempty ∧ Rct.Disjoint a b) :=
         hs.disj.imp_of_mem (fun ha hb hd => ⟨hne _ ha, hne _ hb, hd⟩)
       exact List.Pairwise.filterMap _ (fun a a' ⟨x, y, z⟩ b hb b' hb' => spec_disjoint he.n0 x y z hb hb') hp
-    obtain ⟨s', g1, g2, g3, g4, g5⟩ := mergeList_consistent_int
+    obtain ⟨s', g1, g2, g3, g4, g5, g6⟩ := mergeList_vals_int
       ((rectsOf s.mmap).filterMap (shiftRectSpec rows ins start n))
       { grid := { g' with data := unmerge g'.data }, mmap := [] } h0
       (by
@@ -335,10 +539,22 @@ theorem moveMerges_consistent (s : MState) (hs : Consistent s) (g' : Grid.State 
         exact spec_inTable he (hs.inTable q hq) hqq)
       (by intro q _ p hp; simp [rectsOf, anchorsOf] at hp)
       hpw
-    refine ⟨s', ?_, g2, ?_, g4, g5⟩
+    have hr : rectsOf s'.mmap = (rectsOf s.mmap).filterMap (shiftRectSpec rows ins start n) := by
+      rw [g3]; simp [rectsOf, anchorsOf]
+    refine ⟨s', ?_, g2, hr, g4, g5, ?_⟩
     · simp only [moveMerges, hcond, Bool.false_eq_true, if_false, remerge_eq, hfun]
       exact g1
-    · rw [g3]; simp [rectsOf, anchorsOf]
+    · intro a b cell hc
+      have hc0 : ∃ cell0, cellAt (unmerge g'.data) a b = some cell0 ∧ cell0.val.val = cell.val.val := by
+        rw [cellAt_unmerge, hc]
+        refine ⟨_, rfl, ?_⟩
+        by_cases hp : cell.val.ph = true
+        · simp only [hp, if_true]; exact (hph a b cell hc hp).symm
+        · simp only [hp, if_false]; exact (setMerge_ph _ _).2
+      obtain ⟨cell0, h0, hv0⟩ := hc0
+      obtain ⟨cell', h1, h2, h3⟩ := g6 a b cell0 h0
+      rw [hr]
+      exact ⟨cell', h1, h2, fun hn => by rw [h3 hn, hv0]⟩
 
 /-! ### the four structural edits -/
 
@@ -369,7 +585,11 @@ theorem edit_consistent (s : MState) (hs : Consistent s) (op : Grid.Op Nat) (hst
     (s1 : MState) (h1 : mstepPinned s op = .ok s1) :
     ∃ s', mstep s op = .ok s' ∧ Consistent s' ∧
       rectsOf s'.mmap = shiftRects op s.grid.numRows s.grid.numCols (rectsOf s.mmap) ∧
-      (s'.grid.numRows, s'.grid.numCols) = dimsAfter op s.grid.numRows s.grid.numCols := by
+      (s'.grid.numRows, s'.grid.numCols) = dimsAfter op s.grid.numRows s.grid.numCols ∧
+      (∀ a b y, gget (Grid.specStep emptyCell (Grid.abs s.grid) (liftOp s op)).cells a b = some y →
+        ∃ cell', cellAt s'.grid.data a b = some cell' ∧
+          (Covered (rectsOf s'.mmap) ((a : Int), (b : Int)) → cell'.val.val = 0) ∧
+          (¬ Covered (rectsOf s'.mmap) ((a : Int), (b : Int)) → cell'.val.val = y.val)) := by
   have h1' := h1
   rw [mstepPinned_eq] at h1
   cases hg : Grid.step emptyCell s.grid (liftOp s op) with
@@ -385,6 +605,73 @@ theorem edit_consistent (s : MState) (hs : Consistent s) (op : Grid.Op Nat) (hst
       fun hsf => (safe_edit_consistent s hs op hsf _ h1').1
     have nr0 : 0 ≤ s.grid.numRows := by have := hs.wf.1; omega
     have nc0 : 0 ≤ s.grid.numCols := hs.wf.2.1
+    -- the cells of g' are the payloads of the edited plain grid ...
+    have hcells : ∀ a b, cellAt g'.data a b =
+        (gget (Grid.specStep emptyCell (Grid.abs s.grid) (liftOp s op)).cells a b).map
+          (fun v => (⟨(a : Int), (b : Int), v⟩ : CellM MCell)) := by
+      intro a b; rw [hconc]; simp only [Grid.conc, cellAt_canon, gget]
+    -- ... each an old payload or the fill: a placeholder among them has no value
+    have hpred : ∀ row ∈ (Grid.specStep emptyCell (Grid.abs s.grid) (liftOp s op)).cells, ∀ y ∈ row,
+        (y.ph = true → y.val = 0) := by
+      apply specStep_cells_pred (fun y => y.ph = true → y.val = 0)
+      · intro row hrow y hy
+        simp only [Grid.abs, List.mem_map] at hrow
+        obtain ⟨rowl, hrowl, rfl⟩ := hrow
+        obtain ⟨cell, hcell, rfl⟩ := List.mem_map.mp hy
+        obtain ⟨i, hi, rfl⟩ := List.getElem_of_mem hrowl
+        obtain ⟨j, hj, rfl⟩ := List.getElem_of_mem hcell
+        have hc : cellAt s.grid.data i j = some ((s.grid.data[i])[j]) := by
+          unfold cellAt; rw [List.getElem?_eq_getElem hi]; exact List.getElem?_eq_getElem hj
+        have := hs.cellsOK i j _ hc
+        intro hp
+        rw [this] at hp ⊢
+        exact payload_ph_val _ _ hp
+      · intro n st d hop hp
+        cases op with
+        | write r c v => exact absurd hst (by simp [IsStructural])
+        | addRow n' st' d' =>
+          simp only [liftOp] at hop
+          rcases hop with e | e
+          · injection e with _ _ e3; subst e3
+            obtain ⟨v, hv⟩ := fillVal_pay d'
+            rw [hv] at hp ⊢; exact payload_ph_val _ _ hp
+          · cases e
+        | addCol n' st' d' =>
+          simp only [liftOp] at hop
+          rcases hop with e | e
+          · cases e
+          · injection e with _ _ e3; subst e3
+            obtain ⟨v, hv⟩ := fillVal_pay d'
+            rw [hv] at hp ⊢; exact payload_ph_val _ _ hp
+        | delRow n' st' => simp only [liftOp] at hop; rcases hop with e | e <;> cases e
+        | delCol n' st' => simp only [liftOp] at hop; rcases hop with e | e <;> cases e
+      · intro r c v e
+        cases op <;> simp [liftOp] at e
+        exact absurd hst (by simp [IsStructural])
+    have hph : ∀ a b cell, cellAt g'.data a b = some cell → cell.val.ph = true → cell.val.val = 0 := by
+      intro a b cell hc
+      rw [hcells] at hc
+      cases hg0 : gget (Grid.specStep emptyCell (Grid.abs s.grid) (liftOp s op)).cells a b with
+      | none => rw [hg0] at hc; cases hc
+      | some y =>
+        rw [hg0] at hc; injection hc with hc
+        rw [← hc]
+        unfold gget at hg0
+        cases hrow : (Grid.specStep emptyCell (Grid.abs s.grid) (liftOp s op)).cells[a]? with
+        | none => rw [hrow] at hg0; cases hg0
+        | some row =>
+          rw [hrow] at hg0
+          exact hpred row (List.mem_of_getElem? hrow) y (List.mem_of_getElem? hg0)
+    have hfin : ∀ s' : MState,
+        (∀ a b cell, cellAt g'.data a b = some cell → ∃ cell', cellAt s'.grid.data a b = some cell' ∧
+          (Covered (rectsOf s'.mmap) ((a : Int), (b : Int)) → cell'.val.val = 0) ∧
+          (¬ Covered (rectsOf s'.mmap) ((a : Int), (b : Int)) → cell'.val.val = cell.val.val)) →
+        (∀ a b y, gget (Grid.specStep emptyCell (Grid.abs s.grid) (liftOp s op)).cells a b = some y →
+          ∃ cell', cellAt s'.grid.data a b = some cell' ∧
+            (Covered (rectsOf s'.mmap) ((a : Int), (b : Int)) → cell'.val.val = 0) ∧
+            (¬ Covered (rectsOf s'.mmap) ((a : Int), (b : Int)) → cell'.val.val = y.val)) := by
+      intro s' hv a b y hy
+      exact hv a b ⟨a, b, y⟩ (by rw [hcells, hy]; rfl)
     cases op with
     | write r c v => exact absurd hst (by simp [IsStructural])
     | addRow n st d =>
@@ -400,12 +687,12 @@ theorem edit_consistent (s : MState) (hs : Consistent s) (op : Grid.Op Nat) (hst
         | some x => simp only at v2; simp only [startOrI]; omega
       have he : EditOK true true (startOrI st s.grid.numRows) n s.grid.numRows s.grid.numCols g'.numRows g'.numCols :=
         ⟨v1, hstart.1, ⟨fun _ => by simpa using hstart.2, fun h => by cases h⟩, by simpa using hd.1, by simpa using hd.2⟩
-      obtain ⟨s', a, b, c, d1, d2⟩ := moveMerges_consistent s hs g' hwf' true true _ n he (fun hall => hsafe0 (by
+      obtain ⟨s', a, b, c, d1, d2, d3⟩ := moveMerges_consistent s hs g' hwf' true true _ n he (fun hall => hsafe0 (by
         intro q hq
         have := hall q hq
         rw [startNat_eq st _ nr0 (by cases st <;> simp only at v2 ⊢; omega)]
-        simpa using this))
-      refine ⟨s', ?_, b, c, ?_⟩
+        simpa using this)) hph
+      refine ⟨s', ?_, b, c, ?_, hfin s' d3⟩
       · simp only [mstep, h1', bind, Except.bind]
         simpa using a
       · simp only [dimsAfter, d1, d2, hd.1, hd.2]
@@ -422,12 +709,12 @@ theorem edit_consistent (s : MState) (hs : Consistent s) (op : Grid.Op Nat) (hst
         | some x => simp only at v2; simp only [startOrI]; omega
       have he : EditOK false true (startOrI st s.grid.numCols) n s.grid.numRows s.grid.numCols g'.numRows g'.numCols :=
         ⟨v1, hstart.1, ⟨fun _ => by simpa using hstart.2, fun h => by cases h⟩, by simpa using hd.1, by simpa using hd.2⟩
-      obtain ⟨s', a, b, c, d1, d2⟩ := moveMerges_consistent s hs g' hwf' false true _ n he (fun hall => hsafe0 (by
+      obtain ⟨s', a, b, c, d1, d2, d3⟩ := moveMerges_consistent s hs g' hwf' false true _ n he (fun hall => hsafe0 (by
         intro q hq
         have := hall q hq
         rw [startNat_eq st _ nc0 (by cases st <;> simp only at v2 ⊢; omega)]
-        simpa using this))
-      refine ⟨s', ?_, b, c, ?_⟩
+        simpa using this)) hph
+      refine ⟨s', ?_, b, c, ?_, hfin s' d3⟩
       · simp only [mstep, h1', bind, Except.bind]
         simpa using a
       · simp only [dimsAfter, d1, d2, hd.1, hd.2]
@@ -444,12 +731,12 @@ theorem edit_consistent (s : MState) (hs : Consistent s) (op : Grid.Op Nat) (hst
         | some x => simp only at v3; simp only [startOrI]; omega
       have he : EditOK true false (startOrI st (s.grid.numRows - n)) n s.grid.numRows s.grid.numCols g'.numRows g'.numCols :=
         ⟨v1, hstart.1, ⟨fun h => (by cases h), fun _ => by simpa using hstart.2⟩, by simpa using hd.1, by simpa using hd.2⟩
-      obtain ⟨s', a, b, c, d1, d2⟩ := moveMerges_consistent s hs g' hwf' true false _ n he (fun hall => hsafe0 (by
+      obtain ⟨s', a, b, c, d1, d2, d3⟩ := moveMerges_consistent s hs g' hwf' true false _ n he (fun hall => hsafe0 (by
         intro q hq
         have := hall q hq
         rw [startNat_eq st _ (by omega) (by cases st <;> simp only at v3 ⊢; omega)]
-        simpa using this))
-      refine ⟨s', ?_, b, c, ?_⟩
+        simpa using this)) hph
+      refine ⟨s', ?_, b, c, ?_, hfin s' d3⟩
       · simp only [mstep, h1', bind, Except.bind, hd.1]
         simpa using a
       · simp only [dimsAfter, d1, d2, hd.1, hd.2]
@@ -466,12 +753,12 @@ theorem edit_consistent (s : MState) (hs : Consistent s) (op : Grid.Op Nat) (hst
         | some x => simp only at v3; simp only [startOrI]; omega
       have he : EditOK false false (startOrI st (s.grid.numCols - n)) n s.grid.numRows s.grid.numCols g'.numRows g'.numCols :=
         ⟨v1, hstart.1, ⟨fun h => (by cases h), fun _ => by simpa using hstart.2⟩, by simpa using hd.1, by simpa using hd.2⟩
-      obtain ⟨s', a, b, c, d1, d2⟩ := moveMerges_consistent s hs g' hwf' false false _ n he (fun hall => hsafe0 (by
+      obtain ⟨s', a, b, c, d1, d2, d3⟩ := moveMerges_consistent s hs g' hwf' false false _ n he (fun hall => hsafe0 (by
         intro q hq
         have := hall q hq
         rw [startNat_eq st _ (by omega) (by cases st <;> simp only at v3 ⊢; omega)]
-        simpa using this))
-      refine ⟨s', ?_, b, c, ?_⟩
+        simpa using this)) hph
+      refine ⟨s', ?_, b, c, ?_, hfin s' d3⟩
       · simp only [mstep, h1', bind, Except.bind, hd.2]
         simpa using a
       · simp only [dimsAfter, d1, d2, hd.1, hd.2]
@@ -503,7 +790,11 @@ theorem edit_consistent_full (s : MState) (hs : Consistent s) (op : Grid.Op Nat)
     (Grid.Valid s.grid (liftOp s op) → Grid.FillOK s.grid (liftOp s op) → ∃ s', mstep s op = .ok s') ∧
     (∀ s', mstep s op = .ok s' → Consistent s' ∧
       rectsOf s'.mmap = shiftRects op s.grid.numRows s.grid.numCols (rectsOf s.mmap) ∧
-      (s'.grid.numRows, s'.grid.numCols) = dimsAfter op s.grid.numRows s.grid.numCols) := by
+      (s'.grid.numRows, s'.grid.numCols) = dimsAfter op s.grid.numRows s.grid.numCols ∧
+      (∀ a b y, gget (Grid.specStep emptyCell (Grid.abs s.grid) (liftOp s op)).cells a b = some y →
+        ∃ cell', cellAt s'.grid.data a b = some cell' ∧
+          (Covered (rectsOf s'.mmap) ((a : Int), (b : Int)) → cell'.val.val = 0) ∧
+          (¬ Covered (rectsOf s'.mmap) ((a : Int), (b : Int)) → cell'.val.val = y.val))) := by
   constructor
   · intro hv hf
     obtain ⟨g', hg⟩ := (Grid.stepFacts emptyCell s.grid hs.wf (liftOp s op)).complete hv hf
